@@ -25,6 +25,12 @@ RGB_SHAPES = ["tup(str,seq(u8))", "tup(str,seq(u8))", "tup(str,seq(u32))", "tup(
               "tup(str,seq(i16))", "tup(str,seq(f32))", "tup(str,seq(f64))", "tup(str,seq(u64))", "tup(str,seq(bool))", "opt(opt(tup(ign,ign)))"]
 
 
+def xfail(ctx, key, *a):
+    """ctx.fail + a counter per oracle (evidence: distribution ext_failed_<key>)"""
+    ctx.count("ext_failed_" + key)
+    ctx.fail(key, *a)
+
+
 class G:
     """random (document, shape) pairs, shared by construction"""
 
@@ -451,6 +457,14 @@ def run(ctx):
         names = [c.split("\t")[1] for c in gc]
         ctx.count("ext_groups")
         failed = False
+        # the property: one value on all paths
+        if g.get(which + "_shared"):
+            ctx.count("ext_property_groups")
+            if any(o != go[0] for o in go):
+                failed = True
+                j = next(i for i, o in enumerate(go) if o != go[0])
+                xfail(ctx, "ext-differ", "text (%s) gives %s, %s (%s) gives %s; the specifications say %s" % (
+                    names[0], go[0][:160], gc[j].split("\t")[0], names[j], go[j][:160], t1[:120]), [gc[0], gc[j]], [go[0], go[j]], t1)
         # the per-format ties: the implementation against the Coq specifications of its own format
         for j in range(ntp):
             stream_path = names[j].startswith(("reader:", "freader:"))
@@ -460,7 +474,7 @@ def run(ctx):
             ctx.count("ext_text_compared")
             if go[j] != want and not failed:
                 failed = True
-                ctx.fail("ext-text-" + names[j].split(":")[0], "de.text %s returns %s, TextDeSpec2.spec_value2 %s on the text rendering says %s" % (
+                xfail(ctx, "ext-text-" + names[j].split(":")[0], "de.text %s returns %s, TextDeSpec2.spec_value2 %s on the text rendering says %s" % (
                     names[j], go[j][:200], "false" if stream_path else "true", want[:200]), [gc[j], g["vc_" + which]], [go[j]], want)
         for j in range(ntp, ntp + nbp):
             if b == "ERR:unfit" or b == "PANIC":
@@ -468,15 +482,8 @@ def run(ctx):
             ctx.count("ext_bin_compared")
             if go[j] != b and not failed:
                 failed = True
-                ctx.fail("ext-bin-" + names[j].split(":")[0], "de.bin %s returns %s, BinDoc.spec_of on the binary rendering says %s" % (names[j], go[j][:200], b[:200]),
-                         [gc[j], g["vc_" + which]], [go[j]], b)
-        # the property: one value on all paths
-        if g.get(which + "_shared"):
-            ctx.count("ext_property_groups")
-            if any(o != go[0] for o in go) and not failed:
-                j = next(i for i, o in enumerate(go) if o != go[0])
-                ctx.fail("ext-differ", "text (%s) gives %s, %s (%s) gives %s; the specifications say %s" % (
-                    names[0], go[0][:160], gc[j].split("\t")[0], names[j], go[j][:160], t1[:120]), [gc[0], gc[j]], [go[0], go[j]], t1)
+                xfail(ctx, "ext-bin-" + names[j].split(":")[0], "de.bin %s returns %s, BinDoc.spec_of on the binary rendering says %s" % (names[j], go[j][:200], b[:200]),
+                      [gc[j], g["vc_" + which]], [go[j]], b)
     # the binary walks of the Coq model on the same binary renderings, the text walks on the implementation's tapes
     wm = ["de.model.bin" + c[len("de.bin"):] for c in cases if c.startswith("de.bin\t") and c.split("\t")[1] in ("tape", "slice") or c.startswith("de.bin\treader:")]
     ctx.correspond("ext_walk_model", wm[: ctx.scale(1500, 20000)], nontrivial=nt)
@@ -552,12 +559,12 @@ def probes(ctx):
                 ok = False
         if not ok:
             # the witness no longer replays: the implementation changed on a clause the theorems delimit
-            ctx.fail("ext-probe-" + name, "the refuted witness of C10_ext_%s_refuted replays differently: %s" % (name.replace("-", "_"), outs), gc, outs, str(want))
+            xfail(ctx, "ext-probe-" + name, "the refuted witness of C10_ext_%s_refuted replays differently: %s" % (name.replace("-", "_"), outs), gc, outs, str(want))
         elif name == "rgb-in-array":
-            ctx.fail("rgb-in-array", "a colour as an array element `x = { rgb { 1 2 3 } }`: text gives %s, binary tape %s, binary on-demand / stream %s" % (
+            xfail(ctx, "rgb-in-array", "a colour as an array element `x = { rgb { 1 2 3 } }`: text gives %s, binary tape %s, binary on-demand / stream %s" % (
                 outs[0], outs[2], outs[3][:80]), gc, outs, "one value")
         elif name == "rgb-stream":
-            ctx.fail("H-stream-header", "a colour captured as (String, Vec<u8>): the text stream path gives %s where the slice path and all binary paths give %s" % (
+            xfail(ctx, "H-stream-header", "a colour captured as (String, Vec<u8>): the text stream path gives %s where the slice path and all binary paths give %s" % (
                 outs[1], outs[0][:80]), [gc[0], gc[1]], outs[:2], outs[0])
     # the same cases on the extracted walks
     from props import C02
